@@ -32,6 +32,7 @@ func init() {
 			ruleSortKeyIsFixedAtInsertion(c, "R17")
 			ruleSplitKeepsThePosition(c, "R18")
 			ruleEndpointIsAnEmptySuffix(c, "R19")
+			ruleInstallsAreCounted(c, "R20")
 		},
 	})
 }
